@@ -352,6 +352,114 @@ def run(chk):
                             chk.notes.append(f'spec/libxml2 disagreement: {text_full} ctx={ci} libxml2={got} spec={want} tree={trees.serialize(tlist[ti])[:200]}')
         if ji % 97 == 0 and model[ji] is not None:
             chk.sample({'tree': trees.serialize(tlist[ti])[:200], 'path': text_full, 'start': start, '(model,spec) per context': model[ji][:4]})
+    # ---- root kinds and the public API: fragment roots (an element as the root of its tree, no document node) against the model on
+    #      the fragment's node list; element roots and select() / iter_select() against the document-rooted results
+    from elementpath import select as api_select, iter_select as api_iter_select
+    sel = [ji for ji, (ti, start, steps) in enumerate(jobs) if ti not in prepost and ji % (9 if quick else 2) == 0]
+    fbuilt = {}
+
+    def fget(ti):
+        if ti not in fbuilt:
+            elem = get(ti, 'et')[0].getroot()
+            nodeF = get_node_tree(elem, fragment=True)
+            nodesF = list(nodeF.iter())
+            fbuilt[ti] = (elem, nodeF, nodesF, doc_of(nodesF))
+        return fbuilt[ti]
+    fterms = [f'run_all {doc_coq(fget(jobs[ji][0])[3])} {"FromRoot" if jobs[ji][1] == "root" else "FromContext"} {steps_coq(jobs[ji][2])}' for ji in sel]
+    fmodel = core.run_coq_cases('C01', IMPORTS, fterms, chunk=120, tag='fragments') if model_ok else [None] * len(sel)
+    for ji, fm in zip(sel, fmodel):
+        ti, start, steps = jobs[ji]
+        text = ('/' if start == 'root' else '') + steps_str(steps)
+        elem, nodeF, nodesF, docF = fget(ti)
+        indexF = {id(n): i for i, n in enumerate(nodesF)}
+        root, node, nodes, doc = get(ti, 'et')
+        for v in ('10', '31'):
+            try:
+                tok = parsers[v].parse(text)
+            except ElementPathError:
+                continue
+            # (a) fragment root: every node of the fragment as context item
+            if fm is not None:
+                for ci in (range(len(nodesF)) if start == 'ctx' else [0]):
+                    chk.evaluations += 1
+                    chk.count('fragment root')
+                    desc = {'root': 'fragment (element, fragment=True)', 'version': v, 'path': text, 'context_index': ci, 'tree': ser(ti)[:500]}
+                    try:
+                        res = [indexF.get(id(x), -7) for x in tok.select(XPathContext(nodeF, item=nodesF[ci], fragment=True))]
+                    except ElementPathError as e:
+                        res = ['err', str(e.code)]
+                    except Exception as e:
+                        chk.violation('foreign-exception', desc, repr(e))
+                        continue
+                    mo, want = (list(x) for x in fm[ci])
+                    if res != mo:
+                        chk.corr_fail.append((desc, res, mo))
+                    if res != want:
+                        if res == mo and 'following::' in text:
+                            chk.known('C01-following-from-attribute-or-namespace', desc | {'impl': res, 'spec': want})
+                        else:
+                            chk.violation('impl-vs-spec', desc, {'impl': res, 'spec': want, 'model': mo})
+                    if want:
+                        chk.nontrivial.add(('fragment', ti, text, ci))
+            # (b) the public API on the document: select() = the model result for the document node as context (elements and the
+            #     document by identity, the other kinds by count), iter_select() = select()
+            if model[ji] is not None:
+                chk.evaluations += 1
+                chk.count('select() / iter_select() on a document root')
+                desc = {'root': 'document', 'version': v, 'path': text, 'tree': ser(ti)[:500]}
+                try:
+                    r1 = api_select(root, text, parser=type(parsers[v]))
+                    r2 = list(api_iter_select(root, text, parser=type(parsers[v])))
+                    want = list(model[ji][0][1])
+                    objs = [nodes[w].value for w in want if doc[w][0] in (0, 1, 5, 6)]
+                    got_objs = [x for x in r1 if hasattr(x, 'tag') or hasattr(x, 'getroot')]
+                    same = len(r1) == len(want) and len(objs) == len(got_objs) and all(a is b for a, b in zip(objs, got_objs))
+                    if not same and not ('following::' in text):
+                        chk.violation('impl-vs-spec', desc, {'select()': repr(r1)[:300], 'model (node indices)': want})
+                    if len(r1) != len(r2) or any(a is not b and a != b for a, b in zip(r1, r2)):
+                        chk.violation('impl-vs-spec', desc, {'select()': repr(r1)[:300], 'iter_select()': repr(r2)[:300]})
+                    # (c) element root (no fragment flag): as the document with the root element as context item, the document node
+                    #     itself never selected
+                    # (only for paths that do not walk through the document node: the dummy document of an element root is not
+                    #  a node that later steps can start from)
+                    through_doc = any(a in ('ancestor', 'ancestor-or-self', 'parent') for st in steps for pr in st[2]
+                                      if pr[0] in ('has', 'nothas') for a, _, _ in pr[1])
+                    for k in range(1, len(steps) + 1):      # predicates stripped: the document node must not even be a candidate
+                        pre = api_select(root, ('/' if start == 'root' else '') + steps_str([(a, t, []) for a, t, _ in steps[:k]]),
+                                         parser=type(parsers[v]), item=elem)
+                        through_doc = through_doc or any(hasattr(x, 'getroot') for x in pre)
+                    if through_doc:
+                        continue
+                    e1 = api_select(elem, text, parser=type(parsers[v]))
+                    e2 = list(api_iter_select(elem, text, parser=type(parsers[v])))
+                    d1 = [x for x in api_select(root, text, parser=type(parsers[v]), item=elem) if not hasattr(x, 'getroot')]
+                    if len(e1) != len(d1) or any(a is not b and a != b for a, b in zip(e1, d1)):
+                        chk.violation('impl-vs-spec', desc | {'root': 'element'}, {'select(element root)': repr(e1)[:300],
+                                                                                   'select(document, item=root element) without the document node': repr(d1)[:300]})
+                    if len(e1) != len(e2) or any(a is not b and a != b for a, b in zip(e1, e2)):
+                        chk.violation('impl-vs-spec', desc | {'root': 'element'}, {'select()': repr(e1)[:300], 'iter_select()': repr(e2)[:300]})
+                except ElementPathError as e:
+                    chk.violation('impl-vs-spec', desc, 'error ' + str(e.code))
+                except Exception as e:
+                    chk.violation('foreign-exception', desc, repr(e))
+    # fixed corpus for the element roots: an explicit child:: step after the leading '/' is the abbreviated step
+    for ti in [t for t in range(len(tlist)) if t not in prepost][:: max(1, len(tlist) // (60 if quick else 600))]:
+        root = get(ti, 'et')[0]
+        elem = root.getroot()
+        for v in ('10', '31'):
+            for full, abbr in (('/child::*', '/*'), ('/child::node()', '/node()'), ('/child::*/child::*', '/*/*'), ('/child::*/child::node()', '/*/node()'),
+                               ('/child::*/attribute::*', '/*/@*'), ('/child::%s' % elem.tag, '/%s' % elem.tag), ('/child::*/descendant::*', '/*/descendant::*')):
+                chk.evaluations += 1
+                chk.count('element root: explicit child step')
+                desc = {'root': 'element', 'version': v, 'path': full, 'tree': ser(ti)[:500]}
+                try:
+                    x, y, z = (api_select(r_, p_, parser=type(parsers[v])) for r_, p_ in ((elem, full), (elem, abbr), (root, full)))
+                    if len(x) != len(y) or len(x) != len(z) or any(a is not b and a != b for a, b in zip(x, y)) or any(a is not b and a != b for a, b in zip(x, z)):
+                        chk.violation('impl-vs-spec', desc, {full + ' on the element root': repr(x)[:200], abbr + ' on the element root': repr(y)[:200],
+                                                             full + ' on the document': repr(z)[:200]})
+                except Exception as e:
+                    chk.violation('foreign-exception' if not isinstance(e, ElementPathError) else 'impl-vs-spec', desc, repr(e)[:200])
+                chk.nontrivial.add(('elemroot', ti, full))
     chk.distribution['libxml2 cross-checks'] = lx_checked
     chk.distribution['libxml2 vs spec disagreements'] = lx_dis
     chk.distribution['trees'] = len(tlist)
